@@ -9,7 +9,7 @@
 (*    harness replays these paths into the real FileHashStore and then     *)
 (*    issues EVERY call of the alphabet from there (spec -> code).         *)
 (***************************************************************************)
-EXTENDS HashStoreAPI, HSProps, Json
+EXTENDS HashStoreAPI, HSProps, Converge, Json
 
 VARIABLES st,     \* abstract store state
           g,      \* ghost after the last call
@@ -59,6 +59,10 @@ I_C11_Isolation   == J(C11_Isolation)
 I_C17_Rejected    == C17_Rejected(last.pre, last.call, last.res, st, last.g, g,
                                   BadClass(last.call.val))
 I_C17_ReadOnly    == J(C17_ReadOnly)
+
+I_C19_Converge ==
+  \A p \in Pid, c \in Content, v \in StoreVal :
+     Converge(st, p, c, v, ProcOne(st, p, c, v), ProcTwo(st, p, c, v))
 
 \* Non-vacuity witnesses: each must be VIOLATED (reachable) - checked by the
 \* harness with a separate cfg; a witness that holds means the antecedent of
